@@ -441,6 +441,20 @@ def run(spec, ctx):
     be = backends_for(spec)
     k = spec['kind']
     if k == 'docs':
+        if spec['shard'] in (0, 1):
+            # an unusual character where a token search starts (line start, after an indicator, alone on a line): after a refill
+            # it may be the first character of the reader's window, which must not change what it means
+            odd = [chr(0xFEFF), chr(0x85), chr(0x2028), chr(0x2029), chr(0xa0), '\t', chr(0x1F600), chr(0xe9)]
+            tpls = ['a: 1\n%sb: 2\n', '- x\n- %sy\n- z\n', 'a: %s\nb: 2\n', '# c\n%s# d\na: 1\n', 'k: "%s"\nl: \'%s\'\n', 'a:\n  %sb: 1\n', '[a, %sb]\n', '--- a\n--- %sb\n', 'a: 1\n\n%s\nb: 2\n']
+            for j, ch in enumerate(odd):
+                for t in tpls:
+                    if (j + len(t)) % 2 != spec['shard']:
+                        continue
+                    text = 'pad: ' + 'p' * 17 + '\n' + t.replace('%s', ch)
+                    case = {'kind': 'doc', 'text': text}
+                    ctx.crumb(case)
+                    n = check_document(text, ctx, r, case, be, budget=40)
+                    ctx.case(core.h64(text), n >= 20, ['doc:odd_at_token_start'])
         for i in range(spec['n']):
             text, cls = gen_doc(r)
             case = {'kind': 'doc', 'text': text}
